@@ -14,8 +14,9 @@ Decided statically:
     latter is called on every EXECUTE response.
 Not decided: server histories; that the decoded rows are right (C01).
 """
+from ..inline import inline_view
 from ..mir import AnchorLost
-from ..util import df_of, fn_short, in_set, backward_slice, callers_keys, operand_path, path_last, switch_on, switch_edges
+from ..util import bool_edges, df_of, fn_short, in_set, backward_slice, callers_keys, operand_path, path_last, switch_on, switch_edges
 from .c10 import ok_sites
 from .c20 import slice_fields
 
@@ -55,7 +56,8 @@ def r1(ctx, facts):
     okerr = False
     if len(sws) == 1:
         edges, other = switch_edges(b, sws[0])
-        diff_tg = (other if 0 in edges else edges.get(1)) if want == 0 else edges.get(0)
+        tt, ff = bool_edges(b, sws[0])
+        diff_tg = tt if want == 0 else ff
         reach = b.reachable_from(diff_tg)
         errs = [1 for x in reach for s in b.stmts(x) if s[0] == "A" and s[2][0] == "agg" and s[2][1][0] == "adt" and s[2][1][2] == "RepreparedIdChanged"]
         okerr = bool(errs) and not any(bb in reach for bb, _ in oks)
@@ -240,7 +242,7 @@ def r4(ctx, facts):
 
 
 def check(ctx):
-    facts = ctx.facts("default")
+    facts = inline_view(ctx.facts("default"))
     for fn in (r1, r2_r3, r2_batch, r4):
         try:
             fn(ctx, facts)
